@@ -136,6 +136,31 @@ func c15Dense(r *rng, tag string) [][]string {
 	return es
 }
 
+// k versions of one layered diagram: same node ids and layers, targets of edge pairs between two adjacent layers swapped
+func c15Related(r *rng, k int) []spec.Call {
+	es, lay := famLayeredL(r)
+	o := spec.Options{}
+	if r.chance(50) {
+		o = spec.Options{P1: pick(r, "", "dfs"), P2: pick(r, "", "longestpath"), P4: pick(r, "", "valign", "packright", "sinkcoloring", "bk"), P5: pick(r, "", "straight", "noop", "ortho")}
+	}
+	base := spec.Call{Edges: es, Opts: o}
+	var calls []spec.Call
+	for c := 0; c < k; c++ {
+		v := base
+		v.Edges = nil
+		for _, e := range base.Edges {
+			v.Edges = append(v.Edges, append([]string(nil), e...))
+		}
+		for n := r.intn(3); n > 0 && c > 0; n-- {
+			if w, ok := variantLayered(r, v, lay); ok {
+				v = w
+			}
+		}
+		calls = append(calls, v)
+	}
+	return calls
+}
+
 // two or three moderately wide layers (5-9 nodes each, >= 25 cells between neighbours) under one root
 func c15Wide(r *rng, tag string) [][]string {
 	var es [][]string
@@ -434,7 +459,7 @@ func (cx *Ctx) runC15() {
 	r := rng{s: mix(cx.Seed, 0xC15)}
 
 	var jobs []*spec.Job
-	nSharedOpts, nAllWide, nTwoClasses := 0, 0, 0
+	nSharedOpts, nAllWide, nTwoClasses, nRelated := 0, 0, 0, 0
 	for i := 0; i < nSpecs; i++ {
 		k := r.between(2, 8)
 		calls := cx.c15Calls(&r, k)
@@ -473,6 +498,15 @@ func (cx *Ctx) runC15() {
 			for c := 0; c < k; c++ {
 				calls = append(calls, spec.Call{Edges: c15Wide(&r, fmt.Sprint("q", c)), Opts: o})
 			}
+		} else if !dense && r.chance(9) {
+			// RELATED inputs: every caller lays out a version of ONE diagram - same node ids, same layers, same algorithm
+			// selection, the wiring between two adjacent layers differs in one or two places (or not at all). That is what an
+			// application does when it re-renders revisions of a document concurrently, and it is where a shared memo or
+			// cache whose key leaves out part of the input (the edges, an option) hands one caller another caller's value.
+			fam = "related"
+			nRelated++
+			k = r.between(2, 5)
+			calls = c15Related(&r, k)
 		} else if !dense && r.chance(8) {
 			// TWO CLASSES of callers: k = 4-6 callers, each on one of two algorithm selections A and B (>= 2 callers each)
 			// that differ in the rarely used, expensive algorithms. Resources shared between two code paths - a gate with two
@@ -662,6 +696,7 @@ func (cx *Ctx) runC15() {
 		"specs_whose_callers_share_one_set_of_option_values": nSharedOpts,
 		"specs_with_3_to_5_callers_all_above_size_thresholds": nAllWide,
 		"specs_with_two_classes_of_callers_on_one_simulated_machine": nTwoClasses,
+		"specs_whose_callers_lay_out_versions_of_one_diagram": nRelated,
 		"distinct_schedule_fingerprints": len(fps),
 		"context_switches_total":    switches,
 		"yields_total":              yields,
@@ -864,6 +899,10 @@ func (cx *Ctx) c15Real(r *rng) map[string]any {
 	}
 	if len(calls) > 54 {
 		calls = append(calls[:48], calls[len(calls)-6:]...)
+	}
+	// versions of two diagrams (same ids and layers, different wiring): memos and caches keyed too coarsely
+	for i := 0; i < 2; i++ {
+		calls = append(calls, c15Related(r, 4)...)
 	}
 	// two callers that abort (documented panics, recovered by the caller) run among the valid ones
 	calls = append(calls, spec.Call{Edges: [][]string{}}, spec.Call{Edges: [][]string{{"a", "b"}, {"x"}, {"b", "c"}}})
